@@ -220,4 +220,46 @@ CASES = [
     std::memcpy(&format_args_decoder, read_pos, sizeof(format_args_decoder));""", """    if (transit_event->logger_base->clock_source == ClockSourceType::System) { transit_event->timestamp += 0; transit_event->timestamp = transit_event->timestamp; }
     FormatArgsDecoder format_args_decoder;
     std::memcpy(&format_args_decoder, read_pos, sizeof(format_args_decoder));""")]),
+
+ # ---------------- C06
+ dict(name="c06-flush_log-single-attempt", ids=["C06"], rule="C06.R1", subs=[("Logger.h", """    while (!this->log_statement<false, false>(
+      LogLevel::None, &macro_metadata, reinterpret_cast<uintptr_t>(backend_thread_flushed_ptr)))
+    {""", """    if (!this->log_statement<false, false>(
+      LogLevel::None, &macro_metadata, reinterpret_cast<uintptr_t>(backend_thread_flushed_ptr)))
+    {""")]),
+ dict(name="c06-flag-stored-before-pop", ids=["C06"], rule="C06.R3a", subs=[(BW, """    thread_context->_transit_event_buffer->pop_front();
+
+    if (flush_flag)
+    {""", """    if (flush_flag)
+    {
+      flush_flag->store(true);
+      flush_flag = nullptr;
+    }
+    thread_context->_transit_event_buffer->pop_front();
+
+    if (flush_flag)
+    {""")]),
+ dict(name="c06-flush-with-min-interval", ids=["C06"], rule="C06.R3c", subs=[(BW, """      _flush_and_run_active_sinks(false, std::chrono::milliseconds{0});
+
+      // This is a flush event""", """      _flush_and_run_active_sinks(false, _options.sink_min_flush_interval);
+
+      // This is a flush event""")]),
+ dict(name="c06-flag-static", ids=["C06"], rule="C06.R2a", subs=[("Logger.h", "    std::atomic<bool> backend_thread_flushed{false};\n    std::atomic<bool>* backend_thread_flushed_ptr", "    static std::atomic<bool> backend_thread_flushed; backend_thread_flushed.store(false);\n    std::atomic<bool>* backend_thread_flushed_ptr")]),
+ dict(name="c06-no-wait", ids=["C06"], rule="C06.R2b", subs=[("Logger.h", "    while (!backend_thread_flushed.load())\n    {", "    if (!backend_thread_flushed.load())\n    {")]),
+ dict(name="c06-zero-interval-not-forced", ids=["C06"], rule="C06.R4a", subs=[(BW, """      // sink_min_flush_interval == 0 - always flush sinks
+      should_flush_sinks = true;""", """      // sink_min_flush_interval == 0 - always flush sinks
+      should_flush_sinks = run_periodic_tasks;""")]),
+ dict(name="c06-collector-ends-early", ids=["C06"], rule="C06.R4c", subs=[(BW, """        // return false to never end the loop early
+        return false;""", """        // return false to never end the loop early
+        return !_active_sinks_cache.empty();""")]),
+ dict(name="c06-filesink-skips-stream-flush", ids=["C06"], rule="C06.R5a", subs=[("sinks/FileSink.h", """    StreamSink::flush_sink();
+
+    if (_config.fsync_enabled())""", """    if (_config.fsync_enabled()) { StreamSink::flush_sink(); }
+
+    if (_config.fsync_enabled())""")]),
+ dict(name="c06-write-not-marked-dirty", ids=["C06"], rule="C06.R5c", subs=[("sinks/StreamSink.h", """      safe_fwrite(user_log_statement.data(), sizeof(char), user_log_statement.size(), _file);
+    }""", """      safe_fwrite(user_log_statement.data(), sizeof(char), user_log_statement.size(), _file);
+      return;
+    }""")]),
+ dict(name="c06-flag-not-reset", ids=["C06"], rule="C06.R3d", subs=[(BW, "      transit_event.flush_flag = nullptr;\n", "")]),
 ]
